@@ -9,6 +9,26 @@ import sys
 import traceback
 
 
+_n_tasks = 0
+
+
+def _housekeeping() -> None:
+    """mypy disables/raises the GC during builds; an aborted build leaves it off. Keep the worker's memory flat."""
+    global _n_tasks
+    import gc
+    _n_tasks += 1
+    gc.enable()
+    rss_mb = 0
+    try:
+        with open("/proc/self/statm") as f:
+            rss_mb = int(f.read().split()[1]) * 4096 // (1 << 20)
+    except Exception:
+        pass
+    if rss_mb > 350 or _n_tasks % 10 == 0:
+        gc.set_threshold(700, 10, 10)
+        gc.collect()
+
+
 def main() -> None:
     proto_out = os.fdopen(os.dup(1), "wb", buffering=0)
     devnull = os.open(os.devnull, os.O_WRONLY)
@@ -34,6 +54,7 @@ def main() -> None:
             res = {"ok": False, "exc": f"SystemExit({e.code!r})", "tb": traceback.format_exc()}
         except BaseException as e:
             res = {"ok": False, "exc": f"{type(e).__name__}: {e}", "tb": traceback.format_exc()}
+        _housekeeping()
         try:
             data = json.dumps(res, default=repr).encode()
         except Exception as e:
